@@ -66,6 +66,11 @@ func init() {
 					r.Unresolved("no else-if on an error value found")
 				}
 			}},
+			{ID: "C17.R16", Floor: 10, Doc: "a field that is accessed through sync/atomic anywhere is accessed through sync/atomic everywhere (outside the construction of the object)", Run: func(p *Program, r *Report) {
+				if atomicDiscipline(p, r) == 0 {
+					r.Unresolved("no field is accessed through sync/atomic")
+				}
+			}},
 			{ID: "C17.R15", Floor: 100, Doc: "every mutex a function locks is unlocked again on every path to every exit (every function and function literal of the module)", Run: func(p *Program, r *Report) {
 				if lockBalance(p, r, func(fi *FuncInfo) bool { return true }) == 0 {
 					r.Unresolved("no function locks a mutex")
